@@ -108,7 +108,7 @@ def run(ctx):
     res.add_sample(dict(kind='regex pair', example=[r for r in recs if r['r'] == 'unsat'][:1] or recs[:1]))
     tmo = 900 if T else 100
     obs = [
-        Ob('slash_prefix', 'ob_slash2', '', packed=[('prefix_i', 5), ('m0', 3), ('m1', 3), ('inherit', 2, 'bool'), ('rebind', 2, 'bool')],
+        Ob('slash_prefix', 'ob_slash2', '', packed=[('prefix_i', 5), ('m0', 3), ('m1', 3), ('inherit', 2, 'bool'), ('rebind', 2, 'bool'), ('via_add', 2, 'bool')],
            cells=[('prefix%d' % p, [{'prefix_i': p}]) for p in range(5)], timeout=tmo, confirm='confirm_slash2',
            desc='depth 2: 5 prefixes x outer/inner slash mode x inherit_slashes x rebind_render (both levels have middlewares, resources, render factories, error handlers): '
                 'same route patterns in the same order and identical (status, body, Location, error-handler tag, Allow) on the request catalogue as the flat declaration'),
